@@ -99,7 +99,7 @@ def setup() -> int:
     ok = False
   try:
     import pyglove  # pylint: disable=import-outside-toplevel,unused-import
-    if not pyglove.__file__.startswith('/repo/'):
+    if not pyglove.__file__.startswith(os.environ.get('VERIF_REPO', '/repo') + '/'):
       print(f'setup: pyglove imported from {pyglove.__file__}, expected /repo', file=sys.stderr)
       ok = False
   except Exception as e:  # pylint: disable=broad-except
